@@ -270,4 +270,15 @@ def main():
 
 
 if __name__ == "__main__":
-    sys.exit(main())
+    try:
+        CODE = main()
+    except SystemExit:
+        raise
+    except BaseException as error:  # pylint:disable=broad-except
+        # the machinery itself failed (e.g. /repo/src does not import): never exit 0, never a VIOLATION line
+        import traceback
+
+        traceback.print_exc()
+        print(f"HARNESS-ERROR {type(error).__name__}: {error}")
+        CODE = 2
+    sys.exit(CODE)
